@@ -573,6 +573,7 @@ func checkC08(w *World, r *Report) {
 	checkPrecedenceDescent(w, r)
 	checkDecimalLiterals(w, r)
 	checkExpressionShortcuts(w, r)
+	checkExpressionTextIsSource(w, r, "R08.14")
 	checkNumberFormatting(w, r)
 	checkMembershipEquality(w, r, evalCases)
 	checkRelationalNumericFirst(w, r, evalCases)
@@ -1457,4 +1458,95 @@ func (w *World) pkgVarLiteral(e ast.Expr) *ast.CompositeLit {
 		}
 	}
 	return nil
+}
+
+// checkExpressionTextIsSource — R08.14: the text of an expression reaches the expression
+// tokenizer as pieces of the template source.  Every string handed to TokenizeExpression, and
+// every token value handed to AddToken, is — on every edge — a parameter, a constant, a slice or
+// a trimmed form of such a value, or an element of a split of it; never a string that was built
+// (strings.Join, Replace, ToLower, Fields-then-Join, concatenation, Sprintf …).  Re-assembling a
+// tag's inside "with single spaces" or "in lower case" also rewrites the string literals written
+// in it, so `'a  b'` means something else in a for header than in a print tag.
+func checkExpressionTextIsSource(w *World, r *Report, rule string) {
+	tokExpr := w.ssaFunc(w.method("ZeroAllocTokenizer", "TokenizeExpression"))
+	addTok := w.ssaFunc(w.method("ZeroAllocTokenizer", "AddToken"))
+	n := 0
+	var built func(v ssa.Value, seen map[ssa.Value]bool, depth int) string
+	built = func(v ssa.Value, seen map[ssa.Value]bool, depth int) string {
+		v = unspill(v)
+		if v == nil || seen[v] || depth > 12 {
+			return ""
+		}
+		seen[v] = true
+		switch x := v.(type) {
+		case *ssa.BinOp:
+			if b, ok := x.Type().Underlying().(*types.Basic); ok && b.Info()&types.IsString != 0 && x.Op == token.ADD {
+				// a constant concatenated with a constant is folded by the compiler; anything else builds
+				return "a concatenation"
+			}
+		case *ssa.Phi:
+			for _, e := range x.Edges {
+				if s := built(e, seen, depth+1); s != "" {
+					return s
+				}
+			}
+		case *ssa.Slice:
+			return built(x.X, seen, depth+1)
+		case *ssa.Call:
+			g := x.Call.StaticCallee()
+			if g == nil {
+				return ""
+			}
+			switch g.String() {
+			case "strings.Join", "strings.Replace", "strings.ReplaceAll", "strings.Map", "strings.ToLower", "strings.ToUpper", "strings.ToTitle", "strings.Title", "strings.Repeat", "strings.ToValidUTF8",
+				"fmt.Sprintf", "fmt.Sprint", "fmt.Sprintln", "(*strings.Builder).String", "(*bytes.Buffer).String", "(*strings.Replacer).Replace", "strconv.Quote", "strconv.Unquote":
+				return "the result of " + g.String()
+			}
+			if g.Pkg != nil && g.Pkg.Pkg.Path() == "strings" && strings.HasPrefix(g.Name(), "Trim") && len(x.Call.Args) > 0 {
+				return built(x.Call.Args[0], seen, depth+1)
+			}
+			if isTwigFn(g) && len(g.Blocks) > 0 && g.Signature.Results().Len() == 1 {
+				if b, ok := g.Signature.Results().At(0).Type().Underlying().(*types.Basic); ok && b.Info()&types.IsString != 0 {
+					res := ""
+					instrsOf(g, func(in ssa.Instruction) {
+						if ret, ok := in.(*ssa.Return); ok && res == "" && len(ret.Results) == 1 {
+							res = built(ret.Results[0], seen, depth+1)
+						}
+					})
+					return res
+				}
+			}
+		}
+		return ""
+	}
+	for _, fn := range w.pkgFuncs() {
+		instrsOf(fn, func(in ssa.Instruction) {
+			c, ok := in.(ssa.CallInstruction)
+			if !ok {
+				return
+			}
+			g := c.Common().StaticCallee()
+			var arg ssa.Value
+			what := ""
+			switch {
+			case g != nil && g == tokExpr && len(c.Common().Args) >= 2:
+				arg, what = c.Common().Args[1], "text handed to the expression tokenizer"
+			case g != nil && g == addTok && len(c.Common().Args) >= 3:
+				arg, what = c.Common().Args[2], "token value"
+			default:
+				return
+			}
+			if _, isConst := arg.(*ssa.Const); isConst {
+				return
+			}
+			n++
+			construct := what + " is a piece of the source"
+			if s := built(arg, map[ssa.Value]bool{}, 0); s != "" {
+				r.bad(rule, ssaName(fn), construct, w.posOf(in.Pos()), "the "+what+" is "+s+", not a piece of the template: whatever the rebuilding changes (runs of blanks, case, line breaks) is changed inside the string literals of the expression too, so the same expression means something else in this position than in a print tag")
+			} else {
+				r.ok(rule, ssaName(fn), construct, w.posOf(in.Pos()), "parameter, slice, trimmed or split piece on every edge", false)
+			}
+		})
+	}
+	r.floor("texts handed to the expression tokenizer / token values", n, 20)
 }
